@@ -323,7 +323,48 @@ func (vc *VC) incremental(obls []*Obl, enabled map[string]bool, perCheckMs int, 
 
 // incrementalCores is incremental with the Houdini enable flags passed as
 // assumptions, so that every proof reports which candidates it used.
+// mentionsFieldViews: the term talks about field / image set views.
+func mentionsFieldViews(s string) bool {
+	return strings.Contains(s, "|FS!") || strings.Contains(s, "|IS!")
+}
+
+// incrementalCores splits the obligations into those whose goal mentions a
+// field/image set view and those that do not; the latter are checked without
+// the facts about those views (dropping facts is sound; an obligation that
+// fails this way is retried with every fact by the later stages).
 func (vc *VC) incrementalCores(obls []*Obl, enabled map[string]bool, perCheckMs int, opts SolveOpts, stats *SolverStats, cores bool) (map[*Obl]string, map[*Obl][]string) {
+	var with, without []*Obl
+	for _, o := range obls {
+		if mentionsFieldViews(o.Goal.S) {
+			with = append(with, o)
+		} else {
+			without = append(without, o)
+		}
+	}
+	hasViewFacts := false
+	for _, f := range vc.facts {
+		if mentionsFieldViews(f.S) {
+			hasViewFacts = true
+			break
+		}
+	}
+	if !hasViewFacts || len(without) == 0 {
+		return vc.incrementalCores1(obls, enabled, perCheckMs, opts, stats, cores, false)
+	}
+	r1, c1 := vc.incrementalCores1(without, enabled, perCheckMs, opts, stats, cores, true)
+	if len(with) > 0 {
+		r2, c2 := vc.incrementalCores1(with, enabled, perCheckMs, opts, stats, cores, false)
+		for k, v := range r2 {
+			r1[k] = v
+		}
+		for k, v := range c2 {
+			c1[k] = v
+		}
+	}
+	return r1, c1
+}
+
+func (vc *VC) incrementalCores1(obls []*Obl, enabled map[string]bool, perCheckMs int, opts SolveOpts, stats *SolverStats, cores bool, dropViews bool) (map[*Obl]string, map[*Obl][]string) {
 	res := map[*Obl]string{}
 	coreOf := map[*Obl][]string{}
 	retn := func() (map[*Obl]string, map[*Obl][]string) { return res, coreOf }
@@ -379,6 +420,9 @@ func (vc *VC) incrementalCores(obls []*Obl, enabled map[string]bool, perCheckMs 
 	n := 0
 	for _, o := range sorted {
 		for ; n < o.NFacts; n++ {
+			if dropViews && mentionsFieldViews(vc.facts[n].S) {
+				continue
+			}
 			b.WriteString("(assert ")
 			b.WriteString(vc.facts[n].S)
 			b.WriteString(")\n")
